@@ -86,6 +86,7 @@ class LatticeView:
     def __init__(self, lattice, sh, cap):
         self.lattice = lattice
         self.sh = sh
+        self.sl = sh.lattice(cap)       # first: raises CaseTooLarge cheaply (cached) for big lattices
         self.members = list(lattice)
         self.masks = []
         self.bad_labels = False
@@ -95,7 +96,6 @@ class LatticeView:
             except KeyError:
                 self.masks.append(None)
                 self.bad_labels = True
-        self.sl = sh.lattice(cap)
         # shadow index of every real member (None if it is not a concept)
         self.sidx = []
         for m in self.masks:
@@ -260,3 +260,37 @@ def stored_list_in_scope(ctx, stored, unordered, cap):
     want = [(bits(sl.extents[k]), bits(sl.intents[k]), tuple(sl.upper(k)), tuple(sl.lower(k)))
             for k in range(sl.n)]
     return got == want
+
+
+def registry_history(concepts, case, rng, queries):
+    """A context is pickled and discarded, a same-label context with another table is built (its
+    classes may land where the discarded ones lived) and pickled too, then both pickles are loaded:
+    every live and every loaded context must keep answering from its own table."""
+    import gc
+    import pickle
+    n, m = len(case['objects']), len(case['properties'])
+    if n * m > 64:
+        return
+    objects, properties = list(case['objects']), list(case['properties'])
+    rows_a = list(case['rows'])
+    rows_b = [r ^ ((1 << m) - 1) if i % 2 else r ^ 1 for i, r in enumerate(rows_a)]
+    bools = lambda rows: [tuple(bool(r >> j & 1) for j in range(m)) for r in rows]
+    live = []
+    for filler in range(rng.randint(0, 3)):
+        live.append(concepts.Context(['x%d' % filler], ['y%d' % filler], [(True,)]))
+    a = call(concepts.Context, objects, properties, bools(rows_a))
+    if a is RAISED:
+        return
+    blob_a = pickle.dumps(a)
+    del a
+    gc.collect()
+    b = call(concepts.Context, objects, properties, bools(rows_b))
+    if b is RAISED:
+        return
+    blob_b = pickle.dumps(b)
+    a2 = call(pickle.loads, blob_a)
+    b2 = call(pickle.loads, blob_b)
+    COL.count('registry_histories')
+    for c in (b, a2, b2, b):
+        if c is not RAISED:
+            queries(c)
